@@ -252,12 +252,15 @@ func c37Enumerate(c *lib.Ctx, yield func(c37Case) bool) {
 		}
 	}
 	if c.Thorough() {
-		// wrapper pairs: full product
+		// wrapper pairs: full product over the wrappers that change what the prefix
+		// filter or the engine sees (the others only re-spell the same text)
+		pair := map[string]bool{"lower": true, "paren": true, "block-comment": true, "line-comment": true, "space": true, "semi": true,
+			"trail-comment": true, "two-before": true, "two-after": true, "with-prefix": true, "nested-cte": true, "explain": true, "subquery": true, "nul-head": true}
 		for _, st := range c37Stmts {
 			for _, w1 := range c37Wraps {
 				for _, w2 := range c37Wraps {
-					if w1.name == "plain" || w2.name == "plain" {
-						continue // already covered above
+					if !pair[w1.name] || !pair[w2.name] {
+						continue
 					}
 					if !yield(c37Case{Family: st.family, Stmt: st.name, Wrap: w2.name + "(" + w1.name + ")", SQL: w2.f(w1.f(st.sql))}) {
 						return
@@ -658,7 +661,7 @@ func init() {
 		ID:    "C37",
 		Level: "fault_enumeration",
 		Rule: fmt.Sprintf("full product of %d statements (SELECT, WITH..SELECT, WITH..INSERT/UPDATE/DELETE/REPLACE..RETURNING, INSERT, UPDATE, DELETE, REPLACE, DROP, CREATE*, ALTER, writable PRAGMAs and pragma table functions, ATTACH/DETACH, VACUUM [INTO], REINDEX, ANALYZE, BEGIN/COMMIT/ROLLBACK/SAVEPOINT, file-touching SQL functions) x %d wrappers "+
-			"(case, leading paren/comment/whitespace, trailing semicolons/comments, two statements, ';' in a literal, CTE prefix, nested/recursive CTE, EXPLAIN, subquery, UNION, NUL) [thorough: x every wrapper pair], plus result-size cases (1e5-row recursive CTE with the LIMIT hidden in a literal/comment/own LIMIT, wide rows, oversized cells, zeroblob, 2000/5000 columns, long aliases, long recorded column names) and a request cancelled in mid-query [thorough: the tool's own 15 s timeout]. "+
+			"(case, leading paren/comment/whitespace, trailing semicolons/comments, two statements, ';' in a literal, CTE prefix, nested/recursive CTE, EXPLAIN, subquery, UNION, NUL) [thorough: x every ordered pair of 14 of them], plus result-size cases (1e5-row recursive CTE with the LIMIT hidden in a literal/comment/own LIMIT, wide rows, oversized cells, zeroblob, 2000/5000 columns, long aliases, long recorded column names) and a request cancelled in mid-query [thorough: the tool's own 15 s timeout]. "+
 			"Each case = fresh trace file opened by the real daisen2.NewReplayServer (writable WAL pool), one call through the real tool dispatch; oracle: sha256 of the database file and -wal unchanged, directory listing unchanged, full logical dump through an independent read-only connection unchanged, result <= 1000 rows and body <= 64 KiB after the summary line, and afterwards every pooled connection of the server can still read and build an index. Every (statement, wrapper) text is a distinct case.",
 			len(c37Stmts), len(c37Wraps)),
 		Sharded:     true,
